@@ -186,5 +186,11 @@ def run_special(pid, tier, seed, work, cfg):
                     key = "C19:gradient-tie-flip" if bad <= max(2, len(a) // 20) or name.startswith("ray") else "C19:gradient"
                 else:
                     key = f"C19:{name}"
+                # known finding F16: the off-node source initialisation is ill-conditioned for sub-cell offsets between
+                # ~1e-15 and ~1e-5 of a cell and amplifies the compiled/interpreted rounding differences
+                rel = [abs((cj["desc"]["src"][k] - cj["desc"]["o"][k]) / cj["desc"]["d"][k]) for k in range(cj["desc"]["nd"])]
+                offs = [abs(r_ - round(r_)) for r_ in rel]
+                if cj["desc"]["nd"] == 2 and any(1e-15 < x < 1e-5 for x in offs) and not name.startswith("model"):
+                    key = "C19:near-line-source-ill-conditioned"
                 res["violations"].append({"key": key, "what": f"{name}: {bad} of {len(a)} values differ beyond 1e-9 between compiled and interpreted runs", "replay": cj["desc"]})
     return res
